@@ -376,6 +376,7 @@ func New(o Opts) *World {
 		o.Mode.RowCount = true
 		o.Mode.TTL = true
 		o.Mode.StrictTx = true
+		o.Mode.LinkRotate = true
 	}
 	w.Store = NewIStore(w.Mem, o.Mode)
 	specs := o.Clients
